@@ -102,7 +102,7 @@ theorem serialize_spec (p : P) (ht : TInv p) (hs : SInv p) :
   obtain ⟨counters, hcounters⟩ := mapM'_some (fun (c : Counter) => if c.process < p.processes.length then
       some (⟨idString c.pid, firstThreadIndex p c.process, c.samples⟩ : SerCounter) else none) p.counters (by
     intro c hc
-    exact ⟨_, by rw [if_pos (ht.counters c hc)]⟩)
+    exact ⟨_, by rw [if_pos (ht.counters_lt c hc)]⟩)
   have hvs : (p.visible ++ p.selected).all (· < p.threads.length) = true := by
     rw [List.all_eq_true]
     intro x hx
